@@ -1,4 +1,5 @@
 import SlogModel.Lemmas.Buffer
+import SlogModel.Lemmas.BufferData
 import SlogModel.Gen.Facts
 
 /-!
@@ -21,8 +22,11 @@ import SlogModel.Gen.Facts
       subsequence of (recovered files in name order) ++ (acceptance order).
   * `C03_window_bound` : the output window never holds more than `memCap` chunks.
   * `C03_recovered_first` : the acceptance order starts with the recovered files, in name order.
-  Not yet theorems (checked by the correspondence and the harness oracle only): byte identity of
-  delivered / kept chunks, the space bound on the directory, the memory bound at quiescent points.
+  * `C03_delivered_unchanged` : every chunk the consumer receives is byte-for-byte a chunk that was
+      accepted or recovered; `C03_files_hold_accepted_bytes` : every file named by an accepted id holds
+      the accepted bytes (so what is kept for the next start is unchanged too).
+  Not yet theorems (checked by the correspondence and the harness oracle only): the space bound on the
+  directory, the memory bound at quiescent points.
 -/
 
 open Buffer
@@ -78,6 +82,19 @@ theorem C03_taken_in_order (cfg : Cfg) (disk : List (Nat × Bytes)) (ops : List 
   refine List.Sublist.trans ?_ (C03_fifo cfg disk ops s h)
   rw [List.append_assoc, List.append_assoc]
   exact List.sublist_append_left _ _
+
+/-- **C03 (byte-for-byte unchanged).** -/
+theorem C03_delivered_unchanged (cfg : Cfg) (disk : List (Nat × Bytes)) (hd : (disk.map (·.1)).Nodup)
+    (ops : List Op) (s : St) (h : run (recover cfg disk) ops = some s) (hl : Legal (recover cfg disk) ops) :
+    ∀ p ∈ s.taken, p ∈ s.accepted := by
+  obtain ⟨a1, a2, _, _⟩ := recover_conserved cfg disk hd
+  exact (run_dinv ops _ s h ⟨a1, a2⟩ hl (recover_dinv cfg disk hd)).tk
+
+theorem C03_files_hold_accepted_bytes (cfg : Cfg) (disk : List (Nat × Bytes)) (hd : (disk.map (·.1)).Nodup)
+    (ops : List Op) (s : St) (h : run (recover cfg disk) ops = some s) (hl : Legal (recover cfg disk) ops) :
+    ∀ p ∈ s.disk, p.1 ∈ s.accepted.map (·.1) → p ∈ s.accepted := by
+  obtain ⟨a1, a2, _, _⟩ := recover_conserved cfg disk hd
+  exact (run_dinv ops _ s h ⟨a1, a2⟩ hl (recover_dinv cfg disk hd)).disk
 
 /-- **C03 (window bound).** -/
 theorem C03_window_bound (cfg : Cfg) (disk : List (Nat × Bytes)) (ops : List Op) (s : St)
